@@ -51,7 +51,8 @@ type StateSnap struct {
 	Considered    []AltSnap
 	NotConsidered []AltSnap
 	Criteria      []CritSnap
-	ParamsDeep    string // Deep() of MethodParameters
+	ParamsDeep    string      // Deep() of MethodParameters
+	ParamsTree    interface{} // Tree() of MethodParameters
 	ParamsType    string
 }
 
